@@ -12,6 +12,7 @@ import Model.Proto.Pull
 import Model.Proto.Rep
 import Model.Proto.Mesh
 import Model.Proto.Surveyor
+import Model.Proto.Req
 import Generated.Facts
 open Model Model.Proto
 namespace Driver.Machines
@@ -38,6 +39,7 @@ structure State where
   rep : List Rep.State := [Rep.init .rep Generated.hop_rep]
   mesh : List Mesh.State := [Mesh.init .bus Generated.hop_xstar_drop]
   surv : List Surveyor.State := [Surveyor.init]
+  req : List Req.State := [Req.init]
   stuck : Bool := false      -- after a disagreement the scenario is abandoned until the next `new`
 
 /-- returns (new state, agrees?, expected rendering, branch) or none for an unknown tag -/
@@ -51,6 +53,7 @@ def step (s : State) (tag : String) (args : List String) (o : String) : Option (
     | "m.push" => some ({ s with push := [Push.init], stuck := false }, true, "-", "new")
     | "m.pull" => some ({ s with pull := [Pull.init], stuck := false }, true, "-", "new")
     | "m.surv" => some ({ s with surv := [Surveyor.init], stuck := false }, true, "-", "new")
+    | "m.req" => some ({ s with req := [Req.init], stuck := false }, true, "-", "new")
     | "m.mesh" =>
       let f := match args.getD 1 "" with
         | "bus" => Mesh.Flavor.bus
@@ -92,6 +95,9 @@ def step (s : State) (tag : String) (args : List String) (o : String) : Option (
   | "m.surv" =>
     let (cs, exp) := advance s.surv Surveyor.step args o
     if cs.isEmpty then some ({ s with stuck := true }, false, exp, opName) else some ({ s with surv := cs }, true, o, opName)
+  | "m.req" =>
+    let (cs, exp) := advance s.req Req.step args o
+    if cs.isEmpty then some ({ s with stuck := true }, false, exp, opName) else some ({ s with req := cs }, true, o, opName)
   | _ => none
 
 end Driver.Machines
